@@ -225,3 +225,24 @@ PROPS['C18'] = dict(
     level_text='thorough tier enumerates all 2^31-1 code points; arbitrary byte input is sampled by rapidcheck and libFuzzer with the decoder validity predicate inside the target',
     level_note='trusts the reference encoder in exec/C18.cc; byte strings <= 16 bytes',
 )
+
+PROPS['C16'] = dict(
+    level='exploration',
+    rule='choice tape -> one of: (tf) orders num_n, den_n in 0..8, integer coefficients |c|<=3, two integer input sequences |x|<=5 of length <= 24, a zero() position, scalars and a delay: outputs compared exactly with an '
+         '__int128 reference recurrence while every partial sum stays below 2^52, zero+rerun compared with a freshly initialised filter, linearity and time invariance exact on integers, delay lines in exact-size heap blocks; '
+         '(lpf) alpha from {0, 1, j/2^m, 2^-k, 1-2^-k, uniform}, integer or real inputs: output inside the range of {0, inputs so far} (exact for the dyadic class, 4 ulp otherwise), constant input: monotone approach and '
+         'settling no slower than (1-alpha)^k; (hpf) arbitrary prefix then a constant input: |output| non-increasing and bounded by alpha^k of the step response up to the rounding of (output+x)-input; '
+         '(gen) fc, ts positive doubles over the WHOLE exponent range (subnormal .. near DBL_MAX), half of them steered so that fc*ts lies in [1e-12, 1e12]: results in [0,1], strictly inside and within 4 ulp of the '
+         'long double formula when the product is in the window. non-trivial = tf with num_n,den_n >= 2 and >= 3 distinct consecutive inputs or a mid-history zero with num_n != den_n; lpf/hpf with 0 < alpha < 1; every gen case; '
+         'distinct = hash of decoded parameters and inputs',
+    assumptions=COMMON_ASSUME + ['tf exactness is asserted only while all partial sums stay below 2^52 (longer histories are cut and counted)',
+                                 'hpf decay is judged up to the rounding error of (output + x) - input, which is relative to the input magnitude',
+                                 'long double (x87) supplies the exponent range for fc*ts of any two doubles'],
+    units=lambda tier, seed: [Unit('filters', 'exec/C16.cc', ['a.c', 'math.c', 'tf.c'], tape_len=200)],
+    plan={'quick': dict(rc_procs=10, rc_cases=40000, fuzz_procs=6, fuzz_secs=20),
+          'thorough': dict(rc_procs=8, rc_cases=400000, fuzz_procs=8, fuzz_secs=240)},
+    tolerances={'lpf_range': '0 (dyadic alpha, integer inputs, <= 8 steps) else 4 ulp of the largest input', 'generators': '4 ulp of the long double formula'},
+    technique='property-based testing: exact integer reference model for the transfer function plus metamorphic relations (linearity, time invariance, zero = fresh), range/monotonicity invariants for the RC filters; rapidcheck tapes + libFuzzer under ASan',
+    level_text='generated orders, coefficients and input histories against an exact integer recurrence; filters and generators against invariants and the long double formula; sampling, not proof',
+    level_note='trusts the __int128 reference recurrence; orders <= 8, histories <= 24 samples',
+)
